@@ -47,6 +47,25 @@ structure Harness where
   out : Nat → Nat → Option (List (List Meas))   -- `none`: the invocation fails
   buildOk : Nat → Bool
 
+/-- what a benchmark process did: its exit code and the data points its output parses to (none if unparsable) -/
+structure RawOut where
+  rc : Int
+  dps : List (List Meas)
+
+/-- `_generate_data_point`: is the output of this invocation evaluated and recorded?  Exit 127 never;
+a non-zero exit only with `--faulty`, or when it is the time-out code (-9) and the run ignores time-outs;
+and the output has to parse to at least one data point -/
+def recordedOutcome (faulty ignoreTimeouts : Bool) (o : RawOut) : Bool :=
+  decide (o.rc ≠ 127) && (decide (o.rc = 0) || faulty || (decide (o.rc = -9) && ignoreTimeouts)) && ! o.dps.isEmpty
+
+/-- the deterministic harness as the session sees it, from what the processes do -/
+def harnessOf (faulty : Bool) (ignoreTimeouts : Nat → Bool) (raw : Nat → Nat → Option RawOut)
+    (buildOk : Nat → Bool) : Harness :=
+  { out := fun i t => match raw i t with
+      | some o => if recordedOutcome faulty (ignoreTimeouts i) o then some o.dps else none
+      | none => none,
+    buildOk := buildOk }
+
 inductive Ev where
   | build (b : Nat)
   | start (r inv : Nat)
